@@ -73,7 +73,8 @@ CHECKS = {
              "command prints is the same routines/ops/parameters with every op numbered by its 1-based position across all routines (cli_roundtrip); "
              "for a closed set this is a renumbering of the compiler's set (every jump parameter denotes the op at the position of the original target) "
              "IF AND ONLY IF the jump parameters are positions (cli_positional, cli_positional_only, cli_positional_iff); the printed JSON has the "
-             "documented structure under explicit hypotheses (cli_docshape). The literal property is FALSE on the pinned code, with kernel-checked "
+             "documented structure under explicit hypotheses (cli_docshape); check_settings + read_routines accept EVERY document of the documented "
+             "structure whose position coordinates are strings — all routine and argument types (cli_accepts_documented). The literal property is FALSE on the pinned code, with kernel-checked "
              "witnesses that are real compiler outputs and are replayed through the real commands on every run: the compile command prints internal "
              "offsets, which differ from positions after a dropped jump (cli_gap_counterexample: `if` without else; cli_gap_wrong_op_counterexample) or "
              "an out-of-order op (cli_out_of_order_counterexample: switch with default); every COROUTINE routine is refused (cli_coroutine_counterexample); "
@@ -88,8 +89,8 @@ CHECKS = {
              "(C02/C06). Outside the model: JSON true/false (Python bool is an int), duplicate keys, documents that rely on duck typing (non-string "
              "opcode/constant/name), int(s, 0) spellings outside the INTEGER token (blanks, '+', '_'). DocShape is this project's reading of "
              "docs/cli_api_usage.rst (additional members allowed; target_id integer or string; FIXED_POINT a decimal string; position coordinates integer "
-             "or whole/half-tile string); a hand-written Python validator of the same reading is compared with it on every document. No theorem that "
-             "every DocShape document is accepted by read_routines (checked per run only). json.loads(json.dumps(v)) == v is assumed (stdlib)."),
+             "or whole/half-tile string); a hand-written Python validator of the same reading is compared with it on every document. "
+             "json.loads(json.dumps(v)) == v is assumed (stdlib)."),
 }
 
 PENDING_REASON ="check not built yet in this round (design in DESIGN.md §4); will be claimed once its Lean model and correspondence exist"
